@@ -139,7 +139,19 @@ def rule_W1_W3(facts, rep):
         restores = [j for j, s in enumerate(before) if w.is_restore(s)]
         ok_replay = False
         why = "no replay of the consumed part through strip_next after rewinding"
-        if len(replays) == 1 and restores and restores[-1] < replays[0][0]:
+        on_copy = False
+        if len(replays) == 1 and not restores:
+            # the same rewind done on a copy: `let mut s = <snapshot>; s.strip_next(consumed).last(); *state = s;`
+            call0 = [c for c in hir.walk(replays[0][1]) if hir.is_call(c, "StripBytes::strip_next")][0]
+            recv = hir.peel(call0["args"][0])
+            if recv.get("k") == "local" and not hir.is_local(recv, "state") or (recv.get("k") == "local" and recv.get("id") != b["params"][1].get("id")):
+                binds = [x for x in hir.walk(b["hir"]) if x.get("k") == "let" and x["pat"].get("k") == "pbind" and x["pat"].get("id") == recv.get("id")]
+                from_snapshot = len(binds) == 1 and w.snapshot is not None and hir.is_local(hir.simp(binds[0].get("init")), w.snapshot)
+                stores_back = [j for j, st_ in enumerate(before) if j > replays[0][0] and hir.simp(st_).get("k") == "assign" and hir.is_local(hir.simp(st_)["l"], "state")
+                               and hir.simp(hir.simp(st_)["l"]).get("k") == "un" and hir.simp(hir.simp(st_)["r"]).get("k") == "local"
+                               and hir.simp(hir.simp(st_)["r"]).get("id") == recv.get("id")]
+                on_copy = from_snapshot and len(stores_back) == 1
+        if len(replays) == 1 and ((restores and restores[-1] < replays[0][0]) or on_copy):
             call = [c for c in hir.walk(replays[0][1]) if hir.is_call(c, "StripBytes::strip_next")][0]
             ix = hir.peel(R.res(hir.peel(call["args"][1])))
             if ix.get("k") == "index" and hir.is_local(ix["e"], "buf"):
